@@ -12,6 +12,7 @@ CONSTANTS
   MaxClient = 1
   MaxCrash = 0
   MaxHalf = 0
+  MaxCfg = 0
   MaxRead = 1
   MaxSnap = 0
   SnapSize = 1
